@@ -96,6 +96,10 @@ func (h *inFlightRequestsHandler) onOutgoingFrameEnqueued(f *frame.Frame) (InFli
 			return inFlight, nil
 		}
 	}
+	if managedStreamId {
+		// the request was not registered: return the borrowed stream id to the pool
+		_ = h.releaseStreamId(streamId)
+	}
 	return nil, err
 }
 
